@@ -130,6 +130,27 @@ def check(prog, rep):
                         'the cells are compared as they are: the kernel must get the raster\'s own values, not %s of them (NaN cells '
                         'turned into numbers join the regions of that number; rounded values merge distinct ones)' % _tshow(hits[0][1], 40))
                 return
+    if len(datap) == 1 and not npar:
+        # the neighbourhood the kernel gets is not the caller's parameter itself: a value chosen by a condition on the raster
+        # (`4 if min(raster.shape) < 3 else neighborhood`) overrides an explicit, valid request
+        from ..wterm import show as _tshow2, walk as _twalk2
+        others = [p_ for p_ in pub.params[1:] if p_ != 'name']
+        for p_, t_ in kc.bound.items():
+            if p_ in datap or not isinstance(t_, tuple) or not t_ or t_[0] != 'phi':
+                continue
+            arms = []
+
+            def leaves_(x):
+                if isinstance(x, tuple) and x and x[0] == 'phi':
+                    leaves_(x[2]); leaves_(x[3])
+                else:
+                    arms.append(x)
+            leaves_(t_)
+            if any(a_ == ('param', q_) for a_ in arms for q_ in others) and any(isinstance(a_, tuple) and a_[0] == 'const' for a_ in arms):
+                rep.add('R1', pub, entry, 'labelling kernel parameter %s <- %s' % (p_, _tshow2(t_, 140)), call.lineno, False,
+                        'the kernel must be run with the neighbourhood the caller asked for (4 or 8): on some rasters this replaces it '
+                        'by a constant - cells that touch only diagonally are then never joined although 8 was requested')
+                return
     if len(datap) != 1 or len(npar) != 1:
         raise AnalysisIncomplete('regions: kernel arguments not understood (data %s, neighbourhood %s)' % (datap, npar))
     c.data, c.nparam = datap[0], npar[0]
